@@ -507,17 +507,30 @@ pub fn spec(check: &str, tier: &str) -> Option<CheckSpec> {
             let (a, l1) = arc_programs(tier, true);
             progs.extend(a);
             progs.extend(fam::chan_payload_family());
+            // thread-locals / lazy statics that own loom objects (an Arc each): nothing may be
+            // reported as leaked when they are torn down (verdict only: which thread initialises
+            // a lazy static first is not promised to be explored exhaustively, see C17)
+            let stat_jobs: Vec<Job> = {
+                let st: Vec<Program> = fam::stat_programs(tier).into_iter().filter(|p| p.objs.tls.contains(&true) || p.objs.lazies.contains(&true)).collect();
+                let step = if tier == "quick" { (st.len() / 150).max(1) } else { 1 };
+                let mut js = jobs("C10", tier, st.into_iter().step_by(step).collect(), &cfg);
+                for j in js.iter_mut() {
+                    j.id = format!("{}-stat", j.id);
+                    j.extra = serde_json::json!({"mode": "verdict_only"});
+                }
+                js
+            };
             let (da, dl) = if tier == "quick" { (4, 5) } else { (6, 7) };
             progs.extend(fam::arc_seq_family(da));
             progs.extend(fam::alloc_seq_family(dl));
-            let l1 = format!("{}; ARC-seq: every main-only sequence of <= {} handle ops with a release followed by a new Arc; ALLOC-seq: every sequence of <= {} alloc/dealloc/Track/Arc ops", l1, da, dl);
+            let l1 = format!("{}; STAT programs whose thread-locals / lazy statics own an Arc; ARC-seq: every main-only sequence of <= {} handle ops with a release followed by a new Arc; ALLOC-seq: every sequence of <= {} alloc/dealloc/Track/Arc ops", l1, da, dl);
             Some(CheckSpec {
                 id: "C10",
                 level: "model_checking",
                 rule: "LEAK family (arc / Track / raw allocation / channel message: released, not released, leaked, released or leaked depending on a CAS race) + ARC family with forget; non-trivial = the reference has a leaking terminated execution or >= 2 outcomes",
                 assumptions: vec!["handles / tracked values still held by the harness at the end of the iteration are released by it (only forgotten ones leak)"],
                 wall_cap: wall,
-                jobs: jobs("C10", tier, progs, &cfg),
+                jobs: jobs("C10", tier, progs, &cfg).into_iter().chain(stat_jobs).collect(),
                 self_checks: vec![],
                 completed_level: format!("LEAK sentinels + {}", l1),
                 abort_is_violation: true,
